@@ -464,4 +464,6 @@ def run(ctx):
             r.fail(init, node, norm(node), "the format keeps the builder's own container (%s) as its %s: adding to the builder afterwards changes the finished format" % (show(hit[0]), fld))
         else:
             r.ok("ArgsFormat.%s is a copy / immutable" % fld)
+    ctx.borrow("c07", "C07-R12", "C06-R11", "'has / get answer by every alias': an alias is indexed under the spelling it is looked up by - what a command option files in its alias lists "
+               "is the alias after the dash prefix was removed, the same value that was measured and validated (same rule as C07-R12)")
     return ctx.results
